@@ -18,6 +18,7 @@ from ..report import Report
 
 
 def mk(db, root, rc):
+    root = bytes(bytearray(root))  # an equal, never identical root object (as in hexsys.restore)
     if rc is None:
         return HexaryTrie(db, root)
     c = defaultdict(int)
